@@ -361,6 +361,10 @@ pub fn run_node(c: &NodeCase) -> CaseResult {
 }
 
 pub fn run(ctx: &Ctx) {
+    // "removed for any reason (timeout, ...) no ... learned address keeps pointing at it": a silent peer of a learning mesh whose
+    // learned addresses are fresh far beyond the peer timeout (C15's scenario, run here under C12's name)
+    let sl: Vec<super::c15::SilenceCase> = [0i64, 5, 41].iter().map(|t| super::c15::SilenceCase { from_second: *t, timeout: 120, victim_timeout: None }).collect();
+    crate::mc::sweep::sweep_list(ctx, "timeout_learned_addresses", &sl, crate::mc::sweep::SweepOpts { chunk: 1, ..Default::default() }, super::c15::run_silence_learned);
     let n = lists().len() as u64;
     let k = ctx.tier.pick(3u32, 4u32);
     // quick: all sequences of 3 lists from the 65 repetition-free lists + all pairs over all lists; thorough: length 4
@@ -426,6 +430,7 @@ pub fn replay(family: &str, case: &Value) -> Option<CaseResult> {
     match family {
         "announcement_sequences" | "duplicate_entries" => replay_with::<SeqCase>(case, run_seq),
         "node_scenarios" => replay_with::<NodeCase>(case, run_node),
+        "timeout_learned_addresses" => replay_with::<super::c15::SilenceCase>(case, super::c15::run_silence_learned),
         _ => None,
     }
 }
